@@ -47,12 +47,17 @@ def rename_case(rnd, variant):
         names = dict((role, rnd.choice(NEW[role]) + rnd.choice(['', 'X'])) for role in NEW)
         seed_state = random.Random(0)
         old = prog['countries'][ci]
-        e2 = M.economy(random.Random(0), newc, old['currency'], variant=old['variant'], names=names)
-        # keep the parameters of the original economy, only the names change
-        for s_old, s_new in zip(old['sectors'], e2['sectors']):
-            for k, v in s_old.items():
-                if k not in ('code', 'good', 'lab', 'to', 'issuer', 'treasury'):
-                    s_new[k] = v
+        # the same economy (same sectors, same parameters), only the codes change
+        oldmap = dict((oldcode, names[role]) for role, oldcode in old['roles'].items())
+        e2 = copy.deepcopy(old)
+        e2['code'] = newc
+        for s_new in e2['sectors']:
+            for k in ('code', 'good', 'lab', 'to', 'issuer', 'treasury'):
+                if k in s_new and s_new[k] in oldmap and not (s_new['kind'] == 'deposit' and k == 'code'):
+                    s_new[k] = oldmap[s_new[k]]
+        for k in ('hh', 'gov'):
+            e2[k] = oldmap[old[k]]
+        e2['roles'] = dict((role, names[role]) for role in old['roles'])
         e2['exo'] = [(e2['gov'], 'DEM_' + names['good'], old['exo'][0][2])]
         old['exo'] = [(old['gov'], 'DEM_' + old['roles']['good'], old['exo'][0][2])]
         prog2['countries'][ci] = e2
@@ -64,7 +69,7 @@ def rename_case(rnd, variant):
             if s_old['kind'] == 'money':
                 co = cn = 'MON'
             if s_old['kind'] == 'deposit':
-                co = cn = 'DEP'
+                co = cn = s_old.get('code', 'DEP')
             cmap_full[pre_old + co] = pre_new + cn
     return prog, prog2, cmap_full, codemaps
 
@@ -128,7 +133,7 @@ def run_embed(progs, external):
         code = c['code']
         cmap_full = {}
         for s_ in c['sectors']:
-            sc = {'money': 'MON', 'deposit': 'DEP'}.get(s_['kind'], s_.get('code'))
+            sc = 'MON' if s_['kind'] == 'money' else (s_.get('code', 'DEP') if s_['kind'] == 'deposit' else s_.get('code'))
             cmap_full[sc] = code + '_' + sc
         sub = dict((k, v) for k, v in alone.items() if '__' in k)
         mine = dict((k, v) for k, v in js.items() if k.startswith(code + '_'))
@@ -145,6 +150,17 @@ def embed(tier, seed, **opts):
     for i in range(10 if tier == 'quick' else 150):
         n = rnd.choice([2, 2, 3])
         progs = [dict(external=False, countries=[M.economy(rnd, c, c + 'D')], horizon=4) for c in ['CA', 'US', 'UK'][:n]]
+        if rnd.random() < 0.5:
+            # the second economy re-uses the first one's codes for OTHER roles (its government is coded HH, its household GOV, ...)
+            c1 = progs[1]['countries'][0]
+            swap = dict(gov='HH', hh='GOV', bus='TF', tf='BUS', tre='CB', cb='TRE')
+            e2 = M.economy(random.Random(i), c1['code'], c1['currency'], variant=c1['variant'], names=swap)
+            for s_old, s_new in zip(c1['sectors'], e2['sectors']):
+                for k_, v_ in s_old.items():
+                    if k_ not in ('code', 'good', 'lab', 'to', 'issuer', 'treasury'):
+                        s_new[k_] = v_
+            e2['exo'] = [(e2['gov'], 'DEM_GOOD', c1['exo'][0][2])]
+            progs[1]['countries'][0] = e2
         external = rnd.random() < 0.5
         try:
             bad = run_embed(progs, external)
